@@ -120,6 +120,13 @@ def variant_files(v):
                           "lib = static_library('foo', "
                           "find_files('lib/*.c'))\n"
                           "pkg_config('foo', version='1.0', libs=[lib])\n")
+    elif v == 'toolchain':
+        f['build.bfg'] = ("project('p')\n"
+                          "executable('prog', ['main.c'] + "
+                          "find_files('lib/*.c'))\n")
+        f['../tc.bfg'] = ("environ['CFLAGS'] = environ.get('CFLAGS', '') + "
+                          "' -DTC'\n"
+                          "environ['LDFLAGS'] = '-Ltc'\n")
     elif v == 'missingbase':
         f['build.bfg'] = ("project('p')\n"
                           "executable('prog', ['main.c'] + "
@@ -180,6 +187,18 @@ def apply_edit(p, v, op, n):
             f.write("command('s%d', cmd=['true'])\n" % n)
     elif op == 'add_header':
         regen.write(j(S, 'include', 'h%d.h' % n), '#define H 1\n')
+    elif op == 'edit_toolchain':
+        if v != 'toolchain':
+            return None
+        with open(j(p.root, 'tc.bfg'), 'a') as f:
+            f.write("environ['CPPFLAGS'] = '-DN%d'\n" % n)
+    elif op == 'trim_toolchain':
+        if v != 'toolchain':
+            return None
+        lines = open(j(p.root, 'tc.bfg')).read().splitlines(True)
+        if len(lines) < 2:
+            return None
+        open(j(p.root, 'tc.bfg'), 'w').write(''.join(lines[:-1]))
     elif op == 'mkdir_gen':
         if os.path.exists(j(S, 'gen')):
             return None
@@ -194,6 +213,8 @@ def apply_edit(p, v, op, n):
 def replay_b(case):
     v, backend, ops = case['variant'], case['backend'], case['edits']
     p = regen.Proj(variant_files(v), backend=backend)
+    if v == 'toolchain':
+        p.args = ['--toolchain', os.path.join(p.root, 'tc.bfg')]
     events = []
     try:
         rc, out = p.configure()
